@@ -80,9 +80,10 @@ func (c *dcase) loadErr(repr string, err error) {
 		return
 	}
 	c.violations++
+	et, _ := errText(err) // file loaders unmap their input before returning: never format their errors unguarded
 	c.e.Rec.Violate("domain", c.i, core.Sig("kind", "load_error", "part", "domain", "repr", reprFamily(repr)),
-		c.detail(map[string]any{"representation": repr, "error": err.Error()}),
-		"representation %s cannot be produced/loaded: %v", repr, err)
+		c.detail(map[string]any{"representation": repr, "error": et}),
+		"representation %s cannot be produced/loaded: %s", repr, et)
 }
 
 // set builds the DomainSet of a builder and compares it.
@@ -375,7 +376,8 @@ func (c *dcase) explicit(r *core.RNG, kind string, specs []builderSpec, rules []
 			c.loadErr("builder-appendto["+sp.name+"]", err)
 			continue
 		}
-		if c.cmp("builder-appendto["+sp.name+"]", domainset.DomainSet(ms), c.probes, want) {
+		if c.cmp("builder-appendto["+sp.name+"]", domainset.DomainSet(ms), c.probes, want) && len(rules) > 0 {
+			// (an empty builder selects nothing and matches nothing: compared, but not a class)
 			c.e.Rec.Class("%s rules=%s(distinct %s) builder=%s selects=%s", kind, bucket(len(rules)), bucket(nd), sp.name, selectedTypes(ms))
 		}
 	}
@@ -575,7 +577,7 @@ func runDomain(e *core.Env) {
 		rec.Inconclusive("converter-build")
 	}
 	observeFinalCR(e)
-	core.Parallel(e, "domain", n, 10, func(i int) {
+	core.Parallel(e, "domain", n, 12, func(i int) {
 		r := core.NewRNG(e.Seed, "c10-domain", i)
 		c := &dcase{e: e, i: i}
 		c.rs = genRuleSet(r)
